@@ -32,6 +32,18 @@ def gen_cases(ctx):
     e["reqHeaders"] = [h for h in e["reqHeaders"] if h[0].lower() != "content-type"]
     add([e], "witness-chunked-request")
 
+    # the smallest legal requests: no header field at all, one exchange on the connection, so that
+    # the whole client half is shorter than anything the dissector peeks for (HTTP/2 preface = 24 bytes)
+    for method, target, proto in [("GET", "/", "1.0"), ("HEAD", "/", "1.0"), ("GET", "/ab", "1.0"), ("GET", "/abcde", "1.0"),
+                                  ("GET", "/abcdef", "1.0"), ("OPTIONS", "*", "1.0"), ("GET", "/", "1.1")]:
+        for first in ("c", "s"):
+            e = H.gen_exchange(rng, 1, last=True, sizes=[0, 3])
+            e.update({"method": method, "target": target, "proto": proto, "reqHeaders": [], "reqBody": H.b64(b""), "reqFraming": "none",
+                      "reqChunks": [], "reqFramePos": 0})
+            if method == "HEAD":
+                e.update({"respBody": H.b64(b""), "respFraming": "none"})
+            add([e], "minimal-request", first=first)
+
     n = 300 if quick else 5000
     for i in range(n):
         k = rng.choice([1, 1, 2, 3, 4, 5, 8])
